@@ -1,0 +1,49 @@
+// Copyright (C) The Arvados Authors. All rights reserved.
+//
+// SPDX-License-Identifier: AGPL-3.0
+
+//go:build verif
+// +build verif
+
+// Machine-checked contracts (read by /verif/bin/govc; never compiled into
+// normal builds).  See /verif/DESIGN.md section 3 for the language.
+
+package main
+
+// ------------------------------------------------- C06: act on a complete view
+// Run: pull and trash lists are committed only after the whole state was
+// fetched without error and the late sanity check passed; trash is not
+// committed if committing pulls failed; trash lists are cleared only before
+// the state is fetched.
+//@ func Balancer.Run property C06
+//@   ghost fetched bool = false
+//@   ghost stateOK bool = false
+//@   ghost sane bool = false
+//@   ghost pulled bool = true
+//@   calls Balancer.ClearTrashLists#1: requires !fetched
+//@   calls Balancer.GetCurrentState#1: set fetched = true
+//@   calls Balancer.GetCurrentState#1: set stateOK = ($r == nil)
+//@   calls Balancer.CheckSanityLate#1: requires stateOK
+//@   calls Balancer.CheckSanityLate#1: set sane = ($r == nil)
+//@   calls Balancer.CommitPulls#1: requires stateOK && sane
+//@   calls Balancer.CommitPulls#1: set pulled = ($r == nil)
+//@   calls Balancer.CommitTrash#1: requires stateOK && sane && pulled
+
+// CheckSanityLate: nil only if collections were scanned and no deferred error exists.
+//@ func Balancer.CheckSanityLate property C06
+//@   ensures result == nil ==> old(bal.collScanned) > 0 && old(len(bal.errors)) == 0
+
+// EachCollection: every error of the API call or of f is returned; the paging
+// loop is left normally only on an empty page outside exact-timestamp mode;
+// nil is returned only if at least as many collections were handed to f as
+// the server counted afterwards.
+//@ func EachCollection property C06 safety -bounds
+//@   ghost ferr error = nil
+//@   ghost rerr error = nil
+//@   calls f#1: set ferr = $r
+//@   calls Client.RequestAndDecodeContext#1: set rerr = $r
+//@   at loop 1 exit: assert len(page.Items) == 0 && !gettingExactTimestamp
+//@   loop 1: invariant rerr == nil && ferr == nil
+//@   loop 2: invariant rerr == nil && ferr == nil
+//@   calls f#1: requires !(last.ModifiedAt == $0.ModifiedAt && last.UUID >= $0.UUID)
+//@   ensures result == nil ==> callCount >= checkCount
